@@ -24,9 +24,10 @@ type tcase struct {
 	Buf         int      `json:"read_buffer_size"`
 	Max         int      `json:"max_event_size"`
 	Cut         bool     `json:"cut_off_event_by_limit"`
-	Start       string   `json:"start"`        // reset | continue | tail (offsets_op)
-	StartOffset int      `json:"start_offset"` // saved offset for start=continue (always a line boundary of parts[0])
-	Prev        bool     `json:"previous_job"` // the worker first reads another file whose content is the unterminated "ab"
+	Start       string   `json:"start"`         // reset | continue | tail (offsets_op)
+	StartOffset int      `json:"start_offset"`  // saved offset for start=continue (always a line boundary of parts[0])
+	Create      bool     `json:"notify_create"` // appends are announced by a create/rename-style notification (no write flag: refreshFile does not re-seek) instead of a write notification
+	Prev        bool     `json:"previous_job"`  // the worker first reads another file whose content is the unterminated "ab", and between the rounds is handed that file again, grown by an unterminated "c"
 }
 
 // ---- reference model (boring) ----------------------------------------------
@@ -170,12 +171,14 @@ type rigEntry struct {
 }
 
 type checker struct {
-	run      *vreport.Run
-	path     string
-	prevPath string
-	wf    *os.File
-	rigs  map[limit]*rigEntry
-	npipe int
+	run       *vreport.Run
+	path      string
+	prevPath  string
+	prevW     *os.File
+	prevDirty bool
+	wf        *os.File
+	rigs      map[limit]*rigEntry
+	npipe     int
 
 	holds      string // content of the scratch file
 	holdsValid bool
@@ -283,12 +286,18 @@ func (c *checker) check(tc *tcase) int {
 	rec.exceeded, rec.reads, rec.seq = 0, 0, 0
 
 	c.prepare(tc.Parts[0])
+	if tc.Prev && c.prevDirty {
+		if err := c.prevW.Truncate(2); err != nil { // back to "ab"
+			panic(err)
+		}
+		c.prevDirty = false
+	}
 
 	nviol := 0
 	violation := func(clause, detail string) {
 		nviol++
-		r.Violation(clause, feat(tc), fmt.Sprintf("%s\ncase: parts=%q read_buffer_size=%d max_event_size=%d cut_off=%v start=%s@%d previous_job=%v",
-			detail, tc.Parts, tc.Buf, tc.Max, tc.Cut, tc.Start, tc.StartOffset, tc.Prev), tc)
+		r.Violation(clause, feat(tc), fmt.Sprintf("%s\ncase: parts=%q read_buffer_size=%d max_event_size=%d cut_off=%v start=%s@%d notify_create=%v previous_job=%v",
+			detail, tc.Parts, tc.Buf, tc.Max, tc.Cut, tc.Start, tc.StartOffset, tc.Create, tc.Prev), tc)
 	}
 
 	content := ""
@@ -317,8 +326,23 @@ func (c *checker) check(tc *tcase) int {
 		jobs = append(jobs, j)
 		for k, part := range tc.Parts {
 			if k > 0 {
+				if tc.Prev {
+					// between two rounds of this file the worker serves the other file, which has grown by an unterminated "c"
+					c.prevDirty = true
+					if _, err := c.prevW.WriteString("c"); err != nil {
+						panic(err)
+					}
+					if err := e.rig.Notify(jobs[0], true); err != nil {
+						panic(err)
+					}
+					if !e.rig.WaitDone(jobs[0]) {
+						died = true
+						return
+					}
+					r.Steps(1)
+				}
 				c.write(part)
-				if err := e.rig.Notify(j); err != nil {
+				if err := e.rig.Notify(j, !tc.Create); err != nil {
 					panic(err)
 				}
 			}
@@ -498,7 +522,12 @@ func TestVerif(t *testing.T) {
 		t.Fatal(err)
 	}
 	defer os.Remove(prevPath)
-	c := &checker{run: r, path: path, prevPath: prevPath, wf: wf, rigs: map[limit]*rigEntry{}}
+	prevW, err := os.OpenFile(prevPath, os.O_WRONLY|os.O_APPEND, 0o644)
+	if err != nil {
+		t.Fatal(err)
+	}
+	defer prevW.Close()
+	c := &checker{run: r, path: path, prevPath: prevPath, prevW: prevW, wf: wf, rigs: map[limit]*rigEntry{}}
 
 	if rc := r.ReplayCase(); rc != nil {
 		var tc tcase
@@ -522,7 +551,8 @@ func TestVerif(t *testing.T) {
 	}
 
 	maxLen, maxParts, maxLen3 := 8, 2, 0
-	if r.Thorough() {
+	thorough := r.Thorough()
+	if thorough {
 		maxLen, maxParts, maxLen3 = 10, 3, 8
 	}
 	bufs := []int{1, 2, 3, 4, 5, 8}
@@ -537,7 +567,8 @@ func TestVerif(t *testing.T) {
 	r.Bound("cut_off_event_by_limit", []bool{false, true})
 	r.Bound("max_appends", maxParts)
 	r.Bound("max_content_len_for_3_appends", maxLen3)
-	r.Bound("previous_job", "for start=reset and read-buffer sizes 1, 8: also with the worker having just read another file that ends in the unterminated line \"ab\"")
+	r.Bound("previous_job", "for start=reset and read-buffer sizes 1, 8: also with the worker having just read another file that ends in the unterminated line \"ab\", and serving that file (grown by an unterminated \"c\") between the rounds")
+	r.Bound("append_notification", "write (isWrite=true) / create-style (isWrite=false); quick: write for read-buffer sizes 1,3,5 and create-style for 2,4,8; thorough: both for contents up to length 8, as quick above")
 	r.Bound("starts", "reset; continue from every line boundary of the initial content; tail (initial content non-empty; read-buffer sizes 1, 3, 8 only)")
 	r.Rule("every content over {a,b,\\n} up to the length bound x every split into successive appends (first part may be empty) x read-buffer size x (max_event_size, cut_off) x start (reset / continue at every line boundary of the first part / tail); " +
 		"non-trivial = a delivered line crosses a read-chunk or append boundary, or a line is over the limit; distinct = distinct (limit, start, content, sequence of (offset, data, data after checkInputBytes))")
@@ -580,7 +611,15 @@ func TestVerif(t *testing.T) {
 								continue // tail start: a subset of the buffer sizes
 							}
 							tc := tcase{Parts: parts, Buf: b, Max: l.max, Cut: l.cut, Start: s.kind, StartOffset: s.off}
+							// how an append is announced: write notification (refreshFile re-reads the fd position) or
+							// create-style notification (the job's own curOffset is used); quick: one of the two per buffer size
+							tc.Create = len(parts) > 1 && (b == 2 || b == 4 || b == 8)
 							c.check(&tc)
+							if thorough && len(parts) > 1 && n <= 8 {
+								tc.Create = !tc.Create
+								c.check(&tc)
+								tc.Create = !tc.Create
+							}
 							if s.kind == file.VerifStartReset && (b == 1 || b == 8) {
 								// non-initial worker state: the same worker has just served another file
 								tc.Prev = true
